@@ -943,6 +943,64 @@ func (s *c07Scn) removerVsReupload(storage string) {
 	s.finish(c, reached)
 }
 
+// S7: many concurrent dependency checks (fail-fast path) with a backend, several referenced blobs absent everywhere:
+// every answer must be a miss; the contains workers and the request goroutine share the fail-fast state.
+func (s *c07Scn) failFastConcurrentMisses(storage string) {
+	s.name = "failfast-concurrent-misses"
+	dir := s.pool.Get()
+	defer s.pool.Put(dir)
+	px := lib.NewFakeProxy(storage == "zstd")
+	c, _, err := lib.NewCache(lib.ServerOpts{Dir: dir, MaxSize: 64 * lib.MiB, Storage: storage, Proxy: px})
+	if err != nil {
+		return
+	}
+	ctx := context.Background()
+	ar := &pb.ActionResult{ExecutionMetadata: &pb.ExecutedActionMetadata{Worker: "c07"}}
+	for i := 0; i < 12+s.rng.IntN(30); i++ {
+		b := lib.GenBlob(s.rng, 100+s.rng.IntN(3000), "random", fmt.Sprintf("%s-%d-%d", s.name, len(s.log), i))
+		d := lib.DigestOf(b)
+		switch i % 3 {
+		case 0:
+			_ = c.Put(ctx, cache.CAS, d.Hash, d.SizeBytes, bytes.NewReader(b))
+		case 1:
+			px.SetBlob(cache.CAS, d.Hash, b)
+			px.SetPlan(cache.CAS, d.Hash, lib.ProxyPlan{Delay: time.Duration(s.rng.IntN(300)) * time.Microsecond})
+		default: // absent everywhere
+			px.SetPlan(cache.CAS, d.Hash, lib.ProxyPlan{NotFound: true, Delay: time.Duration(s.rng.IntN(300)) * time.Microsecond})
+		}
+		ar.OutputFiles = append(ar.OutputFiles, &pb.OutputFile{Path: fmt.Sprintf("o/%d", i), Digest: d})
+	}
+	val, _ := proto.Marshal(ar)
+	key := lib.RandHash(s.rng)
+	_ = c.Put(ctx, cache.AC, key, int64(len(val)), bytes.NewReader(val))
+	var wg sync.WaitGroup
+	var hits, errs atomic.Int64
+	for g := 0; g < 8; g++ {
+		wg.Add(1)
+		go func() {
+			defer wg.Done()
+			for i := 0; i < 12; i++ {
+				res, _, err := c.GetValidatedActionResult(ctx, key)
+				if err != nil {
+					errs.Add(1)
+				} else if res != nil {
+					hits.Add(1)
+				}
+			}
+		}()
+	}
+	wg.Wait()
+	s.log = append(s.log, fmt.Sprintf("%d referenced blobs (1/3 absent everywhere), 96 lookups: hits=%d errors=%d", len(ar.OutputFiles), hits.Load(), errs.Load()))
+	s.r.CountN("scenario.failfast.lookups", 96)
+	if hits.Load() > 0 {
+		s.r.Violation("C07:scenario:"+s.name+":hit-with-missing-blob", fmt.Sprintf("%d of 96 concurrent dependency checks answered a hit although a third of the referenced blobs exist nowhere", hits.Load()), s.detail(nil))
+	}
+	if errs.Load() > 0 {
+		s.r.Violation("C07:scenario:"+s.name+":error", fmt.Sprintf("%d of 96 concurrent dependency checks failed with an error caused by absent blobs", errs.Load()), s.detail(nil))
+	}
+	s.finish(c, true)
+}
+
 // ---------------------------------------------------------------------------
 // race detector driver (M-race)
 
@@ -970,8 +1028,8 @@ func raceSignature(blk string) (sig string, brFrame bool, harnessOnly bool) {
 		if (strings.HasPrefix(t, "Read at") || strings.HasPrefix(t, "Write at") || strings.HasPrefix(t, "Previous read at") || strings.HasPrefix(t, "Previous write at") ||
 			strings.HasPrefix(t, "Atomic") || strings.HasPrefix(t, "Previous atomic")) && i+1 < len(lines) {
 			fn := strings.TrimSpace(lines[i+1])
-			if j := strings.Index(fn, "("); j > 0 {
-				fn = fn[:j]
+			if j := strings.LastIndex(fn, "("); j > 0 {
+				fn = fn[:j] // strip the argument list, keep receiver types such as disk.(*diskCache).containsWorker
 			}
 			tops = append(tops, fn)
 		}
@@ -1085,6 +1143,7 @@ func runC07(r *lib.Run) {
 			func() { scn.commitRefused(st) },
 			func() { scn.fetchVsUpload(st) },
 			func() { scn.removerVsReupload(st) },
+			func() { scn.failFastConcurrentMisses(st) },
 		} {
 			scn.log = nil
 			f()
